@@ -6,7 +6,7 @@ use chrono::{DateTime, Utc};
 use log::debug;
 use serde::Serialize;
 use snafu::{ensure, ResultExt};
-use std::io::ErrorKind;
+use std::io::{ErrorKind, Write};
 use std::path::{Path, PathBuf};
 use std::sync::Arc;
 use tempfile::TempDir;
@@ -64,9 +64,21 @@ impl Datastore {
             what: format!("{file} in datastore"),
             path: path.clone(),
         })?;
-        tokio::fs::write(&path, bytes)
-            .await
-            .context(error::DatastoreCreateSnafu { path: &path })
+        // Write to a temporary file in the datastore directory and rename it over the destination,
+        // so that an interrupted or failed write never leaves a truncated or partial file behind:
+        // the previous contents stay in place until the new ones are complete.
+        let dir = lock.path().to_owned();
+        let target = path.clone();
+        tokio::task::spawn_blocking(move || -> std::io::Result<()> {
+            let mut tmp = tempfile::NamedTempFile::new_in(dir)?;
+            tmp.write_all(&bytes)?;
+            tmp.persist(target).map_err(|e| e.error)?;
+            Ok(())
+        })
+        .await
+        // We do not cancel the task nor do we expect it to panic
+        .unwrap_or_else(|_| unreachable!())
+        .context(error::DatastoreCreateSnafu { path: &path })
     }
 
     /// Deletes a file from the datastore. This function is thread safe.
